@@ -363,3 +363,62 @@ Proof.
   rewrite <- (Permutation_length Hperm) in H2.
   apply (bool_eq_iff _ _ _ _ H1 H2). fold o o'. rewrite E. tauto.
 Qed.
+
+(* ---------- Sidak ---------- *)
+Lemma hochberg_sidak_Amono alpha n : 0 < alpha < 1 ->
+  forall i j p, (i <= j < n)%nat -> 0 <= p ->
+  Aup (sidak_adjust (mk_sidak alpha (INR n))) (INR n) i p <= Aup (sidak_adjust (mk_sidak alpha (INR n))) (INR n) j p.
+Proof.
+  intros Ha i j p Hij Hp. unfold Aup. apply (sidak_A_mono alpha Ha).
+  - assert (0 <= INR j) by apply pos_INR. lra.
+  - assert (INR i <= INR j) by (apply le_INR; lia). lra.
+  - exact Hp.
+Qed.
+Lemma holm_sidak_Amono alpha n : 0 < alpha < 1 ->
+  forall i j p, (1 <= i <= j)%nat -> (j <= n)%nat -> 0 <= p ->
+  Adn (sidak_adjust (mk_sidak alpha (INR n))) j p <= Adn (sidak_adjust (mk_sidak alpha (INR n))) i p.
+Proof.
+  intros Ha i j p Hij Hj Hp. unfold Adn. apply (sidak_A_mono alpha Ha).
+  - assert (INR i <= INR n) by (apply le_INR; lia). lra.
+  - apply le_INR. lia.
+  - exact Hp.
+Qed.
+
+Theorem hochberg_sidak_order_independent alpha ps ps' j j' p : 0 < alpha < 1 -> Permutation ps ps' -> Forall unit_p ps ->
+  nth_error ps j = Some p -> nth_error ps' j' = Some p ->
+  let o := nth j (hochberg_stepup (sidak_adjust (mk_sidak alpha (INR (length ps)))) ps) dflt in
+  let o' := nth j' (hochberg_stepup (sidak_adjust (mk_sidak alpha (INR (length ps')))) ps') dflt in
+  fst (fst o) = fst (fst o') /\ snd o = snd o'.
+Proof.
+  intros Ha Hperm Hu Hj Hj'. rewrite <- (Permutation_length Hperm). intros o o'.
+  assert (Hp : 0 <= p) by (rewrite Forall_forall in Hu; apply (Hu p); eapply nth_error_In; exact Hj).
+  assert (Hu' : Forall unit_p ps') by (rewrite Forall_forall in *; intros x Hx; apply Hu; apply (Permutation_in _ (Permutation_sym Hperm)); exact Hx).
+  assert (E : fst (fst o) = fst (fst o')).
+  { apply (stepup_padj_perm_invariant _ (length ps) (hochberg_sidak_Amono alpha (length ps) Ha) ps ps' j j' p); auto. }
+  split; [exact E|].
+  assert (Hlj : (j < length ps)%nat) by (apply nth_error_Some; rewrite Hj; discriminate).
+  assert (Hlj' : (j' < length ps')%nat) by (apply nth_error_Some; rewrite Hj'; discriminate).
+  pose proof (hochberg_sidak_rejected_iff_padj_input alpha ps j Ha Hu Hlj) as H1.
+  pose proof (hochberg_sidak_rejected_iff_padj_input alpha ps' j' Ha Hu' Hlj') as H2.
+  rewrite <- (Permutation_length Hperm) in H2.
+  apply (bool_eq_iff _ _ _ _ H1 H2). fold o o'. rewrite E. tauto.
+Qed.
+Theorem holm_sidak_order_independent alpha ps ps' j j' p : 0 < alpha < 1 -> Permutation ps ps' -> Forall unit_p ps ->
+  nth_error ps j = Some p -> nth_error ps' j' = Some p ->
+  let o := nth j (holm_stepdown (sidak_adjust (mk_sidak alpha (INR (length ps)))) ps) dflt in
+  let o' := nth j' (holm_stepdown (sidak_adjust (mk_sidak alpha (INR (length ps')))) ps') dflt in
+  fst (fst o) = fst (fst o') /\ snd o = snd o'.
+Proof.
+  intros Ha Hperm Hu Hj Hj'. rewrite <- (Permutation_length Hperm). intros o o'.
+  assert (Hp : 0 <= p) by (rewrite Forall_forall in Hu; apply (Hu p); eapply nth_error_In; exact Hj).
+  assert (Hu' : Forall unit_p ps') by (rewrite Forall_forall in *; intros x Hx; apply Hu; apply (Permutation_in _ (Permutation_sym Hperm)); exact Hx).
+  assert (E : fst (fst o) = fst (fst o')).
+  { apply (stepdown_padj_perm_invariant _ (length ps) (holm_sidak_Amono alpha (length ps) Ha) ps ps' j j' p); auto. }
+  split; [exact E|].
+  assert (Hlj : (j < length ps)%nat) by (apply nth_error_Some; rewrite Hj; discriminate).
+  assert (Hlj' : (j' < length ps')%nat) by (apply nth_error_Some; rewrite Hj'; discriminate).
+  pose proof (holm_sidak_rejected_iff_padj_input alpha ps j Ha Hu Hlj) as H1.
+  pose proof (holm_sidak_rejected_iff_padj_input alpha ps' j' Ha Hu' Hlj') as H2.
+  rewrite <- (Permutation_length Hperm) in H2.
+  apply (bool_eq_iff _ _ _ _ H1 H2). fold o o'. rewrite E. tauto.
+Qed.
